@@ -61,6 +61,14 @@ func checkC16(c *Ctx, r *Report) {
 		}
 		r.floor("R16.7", 4)
 	}
+	// R16.10: a reply carries the ids of its own request only if no other connection can write into
+	// the bytes being reassembled: one freshly allocated assembler per accepted connection (C15 R15.5)
+	{
+		tmp := newReport(r.Prop, r.Tier)
+		c15Factory(c, tmp)
+		r.instance("R16.10", copyItems(tmp, r, "R15.5", "R16.10"))
+		r.floor("R16.10", 2)
+	}
 	c16Assembler(c, r)
 	c16Dispatcher(c, r)
 	c16ExceptionLayout(c, r)
